@@ -11,7 +11,7 @@ import numpy as np
 
 from .. import models
 from ..core import RunResult, adigest, mix
-from .pool_common import draw_game, isolated_module_state, make_sim, patched_mp, pool_reach
+from .pool_common import draw_game, maybe_integer_dtype, symmetric_game, isolated_module_state, make_sim, patched_mp, pool_reach
 
 NAME = "A"
 PROPERTY = "C07"
@@ -162,7 +162,7 @@ def draw_small_game(st):
     """A game of the sequential branch: 2..3 answers, 2..3 questions per player."""
     a_out, b_out, a_in, b_in = st.int_range(2, 3), st.int_range(2, 3), st.int_range(2, 3), st.int_range(2, 3)
     rng = st.nprng()
-    kind = st.draw(3)
+    kind = st.draw(4)
     shape = (a_out, b_out, a_in, b_in)
     if kind == 0:  # won with certainty: the largest value any game can have
         f, g = rng.integers(0, a_out, size=a_in), rng.integers(0, b_out, size=b_in)
@@ -172,11 +172,14 @@ def draw_small_game(st):
                 pred[f[x], g[y], x, y] = 1.0
     elif kind == 1:
         pred = (rng.random(shape) < 0.5).astype(float)
-    else:
+    elif kind == 2:
         pred = rng.random(shape)
     prob = rng.random((a_in, b_in)) + 0.05
     prob = prob / prob.sum()
-    return prob, pred, {"shape": list(shape), "small": True, "pred_kind": ["won_with_certainty", "binary", "fractional"][kind], "enumerated": None, "strategies": min(a_out**a_in, b_out**b_in)}
+    if kind == 3:
+        prob, pred, _ = symmetric_game(st, rng, shape, prob)
+    pred, _ = maybe_integer_dtype(st, pred)
+    return prob, pred, {"shape": list(shape), "small": True, "pred_kind": ["won_with_certainty", "binary", "fractional", "symmetric"][kind], "pred_dtype": str(pred.dtype), "enumerated": None, "strategies": min(a_out**a_in, b_out**b_in)}
 
 
 def call(M, game, sim):
